@@ -835,5 +835,7 @@ func main() {
 	ctx.RunStream(c.st, c.lines, c.impl)
 	ctx.RunStream(c.stLookup, c.lookLines, c.lookImpl)
 	ctx.RunStream(c.stMeta, c.metaLines, c.metaIm)
+	restore()
+	defaultPathsOracle(ctx)
 	ctx.Finish()
 }
